@@ -144,12 +144,15 @@ func disturbCursors(v reflect.Value, depth int) {
 				v.Addr().Interface().(*boc.BitString).ReadBit()
 				return
 			case cellT:
-				// bit cursor only: a cell used as a slice (tlb.Any) takes its remaining references from the
-				// reference cursor by design of CopyRemaining/Any, so that cursor is part of the value
-				v.Addr().Interface().(*boc.Cell).ReadBit()
+				// both cursors: the read position of a cell is not part of its value
+				cl := v.Addr().Interface().(*boc.Cell)
+				cl.ReadBit()
+				cl.NextRef()
 				return
 			case anyT:
-				(*boc.Cell)(v.Addr().Interface().(*tlb.Any)).ReadBit()
+				cl := (*boc.Cell)(v.Addr().Interface().(*tlb.Any))
+				cl.ReadBit()
+				cl.NextRef()
 				return
 			}
 		}
